@@ -119,6 +119,7 @@ Definition check_eoi (c : eoi_case) : bool := span_eqb (model_eoi c) (eo_impl c)
 
 Record hull_case := {
   h_tbl : list (list span); h_a : N * N; h_b : N * N; h_impl : span }.
+Definition R (a b : N) : N * N := (a, b).
 Definition nn (p : N * N) : nat * nat := (N.to_nat (fst p), N.to_nat (snd p)).
 Definition model_hull (c : hull_case) : option span :=
   expand_span (h_tbl c) (combine_spans (nn (h_a c)) (nn (h_b c))).
